@@ -427,7 +427,12 @@ class C17(Property):
                     if one and set(bad) <= set(one) | set(zero):
                         ctx.violation("inconsistent:endpoint-with-gpts-1", case, det)
                     elif zero and set(bad) <= set(zero):
-                        ctx.violation("inconsistent:gpts-0-with-nonzero-extent", case, det)
+                        how = "assigned" if (op is not None and op[0] == "G") else "zero-gpts-kept" if (
+                            before is not None and before["gpts"] is not None and all(before["gpts"][k] == 0 for k in zero)
+                        ) else "computed-from-negative-quotient" if all(
+                            ext[k] < 0 or (before is not None and before["sampling"] is not None and before["sampling"][k] < 0)
+                            or (op is not None and op[0] == "S" and unval(op[1]) is not None) for k in zero) else "unexplained"
+                        ctx.violation(f"inconsistent:gpts-0-with-nonzero-extent:{how}", case, det)
                     else:
                         ctx.violation(f"inconsistent:{opname}:locks={lockname}", case, dict(det, dims=bad))
                 if all(n * d != 0 for n, d in zip(gp, sa)):
